@@ -104,6 +104,8 @@ def run(tier, seed):
         kf = common.run_cases(PID, 'corr', PRE, kcases, 'kcase_ok', shard=40)
         out_scope = common.run_cases(PID, 'scope', PRE + ' Require Import Cnl2aspV.Cnl.CoreScopeCases.', kcases, 'kcase_in_scope', shard=40)
         st['specs_in_scope_of_answer_sets_theorem'] = len(kcases) - len(out_scope)
+        out_scope_d = common.run_cases(PID, 'scoped', PRE + ' Require Import Cnl2aspV.Cnl.CoreScopeCases.', kcases, 'kcase_in_scope_defs', shard=40)
+        st['specs_in_scope_of_answer_sets_theorem_with_definitions'] = len(kcases) - len(out_scope_d)
         sf = common.run_cases(PID, 'snd', PRE, mcases, 'models_sound', shard=5)
         gf = common.run_cases(PID, 'gsnd', PRE, mcases, 'models_sound_ground', shard=5)
         cf = common.run_cases(PID, 'cmp', PRE, mcases, 'models_complete', shard=1)
